@@ -8,6 +8,7 @@ import "sync/atomic"
 const (
 	VerifSiteOpenAfterStatus       = 11 // after the process status check, before looking into the map
 	VerifSiteOpenBeforeAddExitHook = 12 // endpoint inserted and port unlocked, before AddExitHook
+	VerifSiteOpenBeforeLock        = 13 // the read-locked lookup missed, before the write lock
 )
 
 var verifYieldHook atomic.Pointer[func(site int)]
